@@ -18,7 +18,7 @@ MANIFEST = dict(
     category='exploration',
     design_ref='DESIGN.md §3 C13, §2.6',
     technique='bounded-exhaustive enumeration of all labelled hypernym digraphs (n<=4, DAGs n=5) on the real code vs a reference graph model',
-    text='Every labelled digraph up to the node bound (self-loops, cycles, edge typings, pos colourings, hyponym-declaration modes) is loaded into the real SQLite store and every taxonomy function is compared with a plain-Python reference on every node / ordered pair / simulate_root value; the n<=3 digraphs with self-loops and the loop-free 4-node digraphs are presented a second time in expanded mode - stored in an expand lexicon and seen from a lexicon that has bare ILI-linked synsets for only the first r nodes, all others appearing as *INFERRED* placeholders (per-node functions start from real synsets and from every placeholder navigation reaches, pair functions from real synsets); termination is decided by a step budget counted in relation queries. Exhaustive within the bound, nothing sampled.',
+    text='Every labelled digraph up to the node bound (self-loops, cycles, edge typings, pos colourings, hyponym-declaration modes) is loaded into the real SQLite store and every taxonomy function is compared with a plain-Python reference on every node / ordered pair / simulate_root value; the n<=3 digraphs with self-loops and the loop-free 4-node digraphs are presented a second time in expanded mode - stored in an expand lexicon and seen from a lexicon that has bare ILI-linked synsets for only the first r nodes, all others appearing as *INFERRED* placeholders (all functions start from the stored synsets and from every placeholder navigation reaches; one family stores the real synsets in two queried lexicons); termination is decided by a step budget counted in relation queries. Exhaustive within the bound, nothing sampled.',
     note='lowest_common_hypernyms and simulate_root distances are compared exactly on DAGs only (depth is not a function of the node on cyclic graphs); graphs with >=6 nodes and the "random larger" half of the quantifier are outside the bound.',
 )
 BATCH = 128
@@ -64,8 +64,11 @@ def build_lexicon(lid, g):
             for r in rels[i]:
                 r['target'] = q + r['target'][len(lid):]
         qs = [mk.synset(f'{q}-{i}', pos[i], _ili(lid, i), relations=rels[i]) for i in range(n)]
-        ps = [mk.synset(f'{lid}-{i}', pos[i], _ili(lid, i)) for i in range(n) if g['real'] >> i & 1]
-        return [mk.lexicon(lid, synsets=ps), mk.lexicon(q, synsets=qs)], edges, hypo
+        sp = g.get('split', 0)          # real nodes of this mask are stored in a second queried lexicon <lid>b
+        ps = [mk.synset(f'{lid}-{i}', pos[i], _ili(lid, i)) for i in range(n) if g['real'] >> i & 1 and not sp >> i & 1]
+        ps2 = [mk.synset(f'{lid}-{i}', pos[i], _ili(lid, i)) for i in range(n) if g['real'] >> i & 1 and sp >> i & 1]
+        return ([mk.lexicon(lid, synsets=ps), mk.lexicon(q, synsets=qs)]
+                + ([mk.lexicon(lid + 'b', synsets=ps2)] if sp else [])), edges, hypo
     if 'ext' in g:
         # extension mode: the nodes of mask ext['nodes'] and the edges of mask ext['edges'] (index into the edge
         # list; plus every edge touching an extension node) are declared by the lexicon extension <lid>x, the
@@ -123,7 +126,7 @@ def check_graph(lid, g, edges, hypo):
     ref = Ref(n, edges)
     expanded = 'real' in g
     if expanded:
-        w = wn.Wordnet(lexicon=f'{lid}:1', expand=f'{lid}q:1')
+        w = wn.Wordnet(lexicon=f'{lid}:1 {lid}b:1' if g.get('split') else f'{lid}:1', expand=f'{lid}q:1')
         real = [i for i in range(n) if g['real'] >> i & 1]
         ss = {i: w.synset(f'{lid}-{i}') for i in real}
         _discover(ss, lid)
@@ -429,6 +432,13 @@ def space(tier, seed):
     for h in range(1 << 12):
         for r in ((1, 2, 3, 4) if tier == 'thorough' else (1, 2)):
             gs.append({'n': 4, 'loops': False, 'h': h, 'real': (1 << r) - 1})
+    # expanded mode with the stored synsets split over two queried lexicons (node 0 in one, node 1 - and
+    # node 2 where it is stored - in the other): a placeholder reached from either lexicon is one node
+    for h in range(1 << 9):
+        gs.append({'n': 3, 'loops': True, 'h': h, 'real': 3, 'split': 2})
+        gs.append({'n': 3, 'loops': True, 'h': h, 'real': 7, 'split': 6})
+    for h in (dag_masks(4) if tier == 'quick' else range(1 << 12)):
+        gs.append({'n': 4, 'loops': False, 'h': h, 'real': 3, 'split': 2})
     # extension mode: part of the graph (one node or none, one edge / all edges / none beyond the node's)
     # is contributed by a lexicon extension; seen with and without the extension in scope
     for n, hs in ((3, range(1, 1 << 6)), (4, dag_masks(4) if tier == 'quick' else range(1, 1 << 12))):
